@@ -464,7 +464,7 @@ pub fn main() {
 
     ck.sub(
         "git-arbiter",
-        SubCfg::new(5_000, 120_000).max_len(1400).max_shrink(40),
+        SubCfg::new(2_000, 120_000).max_len(1400).max_shrink(40),
         |t, c| {
             let n = t.range(8, 24);
             let mut batch = Vec::new();
